@@ -433,7 +433,7 @@ func main() {
 		p := progs[i]
 		root := filepath.Join(r.Scratch, "proj")
 		viol := func(sig, what, ed string) {
-			if staleOnly && sig != "edit-not-detected" && sig != "edit-not-rebuilt" {
+			if staleOnly && sig != "edit-not-detected" && sig != "edit-not-rebuilt" && sig != "edit-not-rebuilt-after-reload" {
 				return
 			}
 			if reasonsOnly && !strings.HasPrefix(sig, "reason-") {
@@ -537,6 +537,26 @@ func main() {
 			if !ran {
 				viol("edit-not-rebuilt", "the target was not re-executed after the edit", e.Name)
 				continue
+			}
+			// the same edit under a long-lived Project (watch mode): load the built project, run
+			// (everything is up to date), let the sources change, Reload, run
+			rootW := filepath.Join(r.Scratch, "watched")
+			p.write(rootW, p.Files)
+			copyTree(filepath.Join(root, ".dawn"), filepath.Join(rootW, ".dawn"))
+			if lw, err := load(rootW); err == nil && run(lw) == nil && len(lw.ev.rs) == 0 {
+				for n, c := range files {
+					if p.Files[n] != c {
+						os.WriteFile(filepath.Join(rootW, n), []byte(c), 0o644)
+					}
+				}
+				if err := lw.proj.Reload(); err != nil {
+					viol("reload-error:"+errClass(err), "Reload after the edit failed: "+err.Error(), e.Name)
+				} else if err := run(lw); err != nil {
+					viol("build-error:"+errClass(err), "build after the edit and a Reload failed: "+err.Error(), e.Name)
+				} else if _, ran := lw.ev.rs["//:t"]; !ran {
+					viol("edit-not-rebuilt-after-reload", "a long-lived Project that was reloaded after the edit did not re-execute the target", e.Name)
+				}
+				r.Add("reload_twins", 1)
 			}
 			if derr == nil {
 				got := parseReason(reason)
